@@ -1753,6 +1753,9 @@ class Exec(Engine):
             if isinstance(v, VRecList):
                 out.append((('sym', v.n, v.getter(self)), s))
                 continue
+            if isinstance(v, VRef) and isinstance(s.heap.get(v.loc), HInst) and s.heap[v.loc].cls == 'EnumIter':
+                out.append((('iter', v), s))
+                continue
             if isinstance(v, VRef) and isinstance(s.heap.get(v.loc), (HRecSeq, HIdxList)):
                 from . import reclists
                 o = s.heap[v.loc]
@@ -1772,6 +1775,11 @@ class Exec(Engine):
         for dom, s in self.iter_domain(node.iter, st):
             if dom[0] == 'raise':
                 out.append(('raise', dom[1], s))
+                continue
+            if dom[0] == 'iter':
+                if spec is None:
+                    raise Undecided('loop #%d over an explicit iterator needs an invariant' % ordn, node)
+                out.extend(self.for_over_iterator(node, ordn, spec, dom[1], s))
                 continue
             if dom[0] == 'concrete' and spec is None:
                 out.extend(self.unroll_for(node, dom[1], s))
@@ -1944,9 +1952,21 @@ class Exec(Engine):
 
     def _for_with_invariant(self, node, ordn, spec, n, getter, st):
         self.check_header(spec, ast.unparse(node.iter), ordn, node)
+        for gname, gtext in spec.entry_ghost.items():
+            self.pure += 1
+            try:
+                gv = self.ev1(ast.parse(gtext.strip(), mode='eval').body, st.copy())
+            finally:
+                self.pure -= 1
+            st.ghost[gname] = self.snapshot(gv, st)
         idx = '_i%d' % ordn
         old = self.entry_state
         out = []
+        # ghost: the first element of the iterable (meaningful when it is not empty)
+        try:
+            st.ghost['_first%d' % ordn] = getter(IntV(0), st)
+        except Undecided:
+            pass
         # 1. invariant holds on entry (index 0)
         st.ghost[idx] = VInt(IntV(0))
         st.ghost['_n%d' % ordn] = VInt(n)
@@ -2032,6 +2052,71 @@ class Exec(Engine):
                     raise Undecided('exit_post %s of loop #%d is literally false on the havocked state' % (name, ordn), node)
                 s_after.assume(t_post)
             out.append(('normal', None, s_after))
+        return out
+
+    def for_over_iterator(self, node, ordn, spec, it, st):
+        """`for x in it` where `it` is an EnumIter that the body (or a callee) may advance further: the invariant is stated
+        over it.pos; one iteration takes the element at pos and sets pos := pos + 1 before the body runs."""
+        self.check_header(spec, ast.unparse(node.iter), ordn, node)
+        old = self.entry_state
+        out = []
+        outer_mark = st.ghost.get('__iter_event_start__', 0)
+        for name, text in spec.invariants:
+            self.oblige('inv-init', '%s@loop%d' % (name, ordn), st, self.inv_clause(text, st, old), node)
+        s1 = st.copy()
+        self.havoc_loop(node, spec, s1)
+        o = s1.heap[it.loc]
+        seq = o.fields['seq']
+        n = Len(seq.t)
+        p = self.ctx.fresh('pos%d' % ordn, INT)
+        s1.assume(And(Le(IntV(0), p), Le(p, n)))
+        f = dict(o.fields)
+        f['pos'] = VInt(p)
+        s1.heap[it.loc] = HInst(o.cls, f, o.view)
+        for name, text in spec.invariants:
+            t_inv = self.inv_clause(text, s1, old)
+            if t_inv.lit is not None and not t_inv.lit[1]:
+                raise Undecided('invariant %s of loop #%d is literally false on the havocked state' % (name, ordn), node)
+            s1.assume(t_inv)
+        s_exit = s1.copy()
+        if self.feasible(s_exit, Eq(p, n)):
+            s_exit.assume(Eq(p, n))
+            out.extend(self.run_block(node.orelse, s_exit) if node.orelse else [('normal', None, s_exit)])
+        s_body = s1
+        if self.feasible(s_body, Lt(p, n)):
+            s_body.assume(Lt(p, n))
+            item = VTuple([VInt(Add(o.fields['start'].t, p)), wrap(smt.At(seq.t, p), seq.elem)])
+            self.assign_target(node.target, item, s_body, node)
+            ob = s_body.heap[it.loc]
+            fb = dict(ob.fields)
+            fb['pos'] = VInt(Add(p, IntV(1)))
+            s_body.heap[it.loc] = HInst(ob.cls, fb, ob.view)
+            s_body.ghost['__iter_event_start__'] = len(s_body.events)
+            iter_snapshot = s_body.copy()
+            for name, text in spec.body_facts:
+                g = self.inv_clause(text, s_body, old)
+                self.oblige('inv-fact', '%s@loop%d' % (name, ordn), s_body, g, node)
+                s_body.assume(g)
+            for kind, payload, s2 in self.run_block(node.body, s_body):
+                self.iter_state = iter_snapshot
+                try:
+                    for name, text in spec.body_always:
+                        self.oblige('always', '%s@loop%d' % (name, ordn), s2, self.inv_clause(text, s2, old), node,
+                                    note='iteration outcome: %s' % kind)
+                    if kind in ('normal', 'continue'):
+                        for name, text in spec.body_post:
+                            self.oblige('step', '%s@loop%d' % (name, ordn), s2, self.inv_clause(text, s2, old), node)
+                finally:
+                    self.iter_state = None
+                if kind in ('normal', 'continue'):
+                    for name, text in spec.invariants:
+                        self.oblige('inv-keep', '%s@loop%d' % (name, ordn), s2, self.inv_clause(text, s2, old), node)
+                elif kind == 'break':
+                    out.append(('normal', None, s2))
+                else:
+                    out.append((kind, payload, s2))
+        for _, _, s_out in out:
+            s_out.ghost['__iter_event_start__'] = outer_mark
         return out
 
     def exec_While(self, node, st):
@@ -2600,6 +2685,7 @@ ALWAYS_INLINE = {
     'xdoctest.doctest_example:DocTest.valid_testnames',
     'xdoctest.doctest_example:DocTest.unique_callname',
     'xdoctest.doctest_example:DocTest._block_prefix',
+    'xdoctest.parser:_hasprefix',
     'xdoctest.doctest_part:DoctestPart.want',
     'xdoctest.doctest_part:DoctestPart.n_lines',
     'xdoctest.doctest_part:DoctestPart.n_exec_lines',
